@@ -11,21 +11,24 @@
 namespace venv {
 using namespace asmjit;
 
-alignas(16) static unsigned char asm_mem[sizeof(x86::Assembler)];
-alignas(16) static unsigned char code_mem[sizeof(CodeHolder)];
-alignas(16) static unsigned char sect_mem[sizeof(Section)];
+// Typed storage without running constructors (a byte array reinterpreted as the class would force CBMC into byte-level
+// reasoning for every field access).
+template<typename T> union Raw { T v; Raw() noexcept {} ~Raw() noexcept {} };
+static Raw<x86::Assembler> asm_store;
+static Raw<CodeHolder> code_store;
+static Raw<Section> sect_store;
 static uint8_t buf[64];
 static int reports;
 static Error last_reported;
 
-static inline x86::Assembler* assembler() { return reinterpret_cast<x86::Assembler*>(asm_mem); }
-static inline CodeHolder* holder() { return reinterpret_cast<CodeHolder*>(code_mem); }
-static inline Section* text() { return reinterpret_cast<Section*>(sect_mem); }
+static inline x86::Assembler* assembler() { return &asm_store.v; }
+static inline CodeHolder* holder() { return &code_store.v; }
+static inline Section* text() { return &sect_store.v; }
 
 // x64: 64-bit mode; validate: strict validation (DiagnosticOptions::kValidateAssembler) on.
 static inline x86::Assembler* make_asm(bool x64, bool validate) {
   x86::Assembler* a = assembler(); CodeHolder* c = holder(); Section* s = text();
-  memset(asm_mem, 0, sizeof(asm_mem)); memset(code_mem, 0, sizeof(code_mem)); memset(sect_mem, 0, sizeof(sect_mem));
+  memset((void*)&asm_store, 0, sizeof(asm_store)); memset((void*)&code_store, 0, sizeof(code_store)); memset((void*)&sect_store, 0, sizeof(sect_store));
   memset(buf, 0xCC, sizeof(buf));
   reports = 0; last_reported = Error::kOk;
   a->_code = c; a->_section = s;
